@@ -52,7 +52,7 @@ LEVEL_NOTE = (
     "Symlinks are not generated (the statement does not say which side of a link 'located inside' refers to); POSIX "
     "path semantics only; names longer than the bound and other character classes are not covered."
 )
-TECHNIQUE = "bounded-exhaustive enumeration of template names over a path grammar x loader kinds against a containment oracle on a real file sandbox"
+TECHNIQUE = "bounded-exhaustive enumeration of template names over a path grammar x loader kinds against a containment oracle on a real file sandbox + exhaustive enumeration of load / shadow / rewrite histories with every escaping name probed after each"
 ASSUMPTIONS = ["POSIX file system", "file content identifies the file"]
 
 SEGMENTS = ["a", "sub", "a.html", "..", ".", "", "outside", "s2", "é.html", "~", "%2e%2e", "..\\", "b",
